@@ -98,7 +98,7 @@ type Explorer struct {
 	Seed      int
 
 	mu        sync.Mutex
-	work      [][]bool
+	work      [][]Dec
 	active    int
 	cond      *sync.Cond
 	paths     []PathSummary
@@ -127,9 +127,9 @@ type Exec struct {
 	W         *Worker
 	P         *Program
 	ts        *TermStore
-	prefix    []bool
+	prefix    []Dec
 	pos       int
-	decisions []bool
+	decisions []Dec
 	pc        []*Term
 	draws     []DrawRec
 	obs       []ObsRec
@@ -155,6 +155,7 @@ type Exec struct {
 	shared    map[*Value]string
 	trackFoot bool
 	inInit    int
+	known     map[*Term]bool
 }
 
 func (ex *Exec) end(kind endKind, format string, args ...interface{}) {
@@ -172,13 +173,90 @@ func (ex *Exec) unsupported(format string, args ...interface{}) {
 func (ex *Exec) inPrefix() bool { return ex.pos < len(ex.prefix) }
 
 func (ex *Exec) take(c *Term, d bool) {
+	k := uint8(decFalse)
 	if !d {
 		c = ex.ts.BNot(c)
+	} else {
+		k = decTrue
 	}
 	ex.W.solver.Assert(c)
 	ex.pc = append(ex.pc, c)
-	ex.decisions = append(ex.decisions, d)
+	ex.learn(c)
+	ex.decisions = append(ex.decisions, Dec{K: k})
 	ex.pos++
+}
+
+// learn records literals that are now part of the path condition, so that a
+// repeated test of the same condition is decided without a query.
+func (ex *Exec) learn(c *Term) {
+	switch c.Op {
+	case OBNot:
+		ex.known[c.A] = false
+		if c.A.Op == OBOr {
+			ex.learn(ex.ts.BNot(c.A.A))
+			ex.learn(ex.ts.BNot(c.A.B))
+		}
+	case OBAnd:
+		ex.known[c] = true
+		ex.learn(c.A)
+		ex.learn(c.B)
+	default:
+		ex.known[c] = true
+	}
+}
+
+// knownValue decides c from recorded literals (definite answers only).
+func (ex *Exec) knownValue(c *Term) (bool, bool) {
+	if v, ok := ex.known[c]; ok {
+		return v, true
+	}
+	switch c.Op {
+	case OBNot:
+		if v, ok := ex.knownValue(c.A); ok {
+			return !v, true
+		}
+	case OBAnd:
+		a, oka := ex.knownValue(c.A)
+		b, okb := ex.knownValue(c.B)
+		if oka && okb {
+			return a && b, true
+		}
+		if (oka && !a) || (okb && !b) {
+			return false, true
+		}
+	case OBOr:
+		a, oka := ex.knownValue(c.A)
+		b, okb := ex.knownValue(c.B)
+		if oka && okb {
+			return a || b, true
+		}
+		if (oka && a) || (okb && b) {
+			return true, true
+		}
+	}
+	return false, false
+}
+
+// Dec is one recorded decision of a path: a branch outcome, or a step of a
+// concretisation (value chosen / value excluded).
+type Dec struct {
+	K uint8
+	V uint64
+}
+
+const (
+	decFalse = iota
+	decTrue
+	decEq
+	decNe
+)
+
+func (ex *Exec) prefixBool() bool {
+	d := ex.prefix[ex.pos]
+	if d.K > decTrue {
+		panic("decision prefix out of step (expected a branch)")
+	}
+	return d.K == decTrue
 }
 
 func (ex *Exec) check(extra *Term, wantModel bool) (SatResult, Model) {
@@ -211,8 +289,11 @@ func (ex *Exec) branch(c *Term) bool {
 	if c.W != 0 {
 		panic("branch on non-Boolean term")
 	}
+	if v, ok := ex.knownValue(c); ok {
+		return v
+	}
 	if ex.inPrefix() {
-		d := ex.prefix[ex.pos]
+		d := ex.prefixBool()
 		ex.take(c, d)
 		return d
 	}
@@ -226,9 +307,9 @@ func (ex *Exec) branch(c *Term) bool {
 		ex.take(c, true)
 		return true
 	}
-	other := make([]bool, len(ex.decisions)+1)
+	other := make([]Dec, len(ex.decisions)+1)
 	copy(other, ex.decisions)
-	other[len(ex.decisions)] = false
+	other[len(ex.decisions)] = Dec{K: decFalse}
 	ex.W.E.enqueue(other)
 	ex.take(c, true)
 	return true
@@ -242,8 +323,12 @@ func (ex *Exec) assume(c *Term) {
 	if c.IsFalse() {
 		ex.end(endInfeasible, "assumption false")
 	}
+	if v, ok := ex.knownValue(c); ok && v {
+		return
+	}
 	ex.W.solver.Assert(c)
 	ex.pc = append(ex.pc, c)
+	ex.learn(c)
 	if ex.inPrefix() {
 		return
 	}
@@ -307,8 +392,11 @@ func (ex *Exec) oblige(c *Term, id string) {
 	if c.IsTrue() {
 		return
 	}
+	if v, ok := ex.knownValue(c); ok && v {
+		return
+	}
 	if ex.inPrefix() {
-		d := ex.prefix[ex.pos]
+		d := ex.prefixBool()
 		ex.take(c, d)
 		return
 	}
@@ -373,11 +461,15 @@ func (ex *Exec) mustHold(c *Term, what string) {
 }
 
 // concretize returns the concrete value of t on this path, forking over the
-// feasible values in [lo, hi].
+// feasible values in [lo, hi] (the caller has established that range). The
+// candidate values come from solver models: value v is taken on this path and
+// the alternative "t != v" is enqueued, so the cost is two queries per
+// feasible value whatever the size of the range.
 func (ex *Exec) concretize(t *Term, lo, hi uint64) uint64 {
 	if t.IsConst() {
 		return t.K
 	}
+	ts := ex.ts
 	if t.lo > lo {
 		lo = t.lo
 	}
@@ -387,30 +479,69 @@ func (ex *Exec) concretize(t *Term, lo, hi uint64) uint64 {
 	if hi < lo {
 		ex.end(endInfeasible, "empty range in concretize")
 	}
-	if hi-lo > 4096 {
-		ex.unsupported("concretising a value with %d candidates", hi-lo+1)
+	if lo == hi {
+		ex.assume(ts.Eq(t, ts.Const(t.W, lo)))
+		return lo
 	}
-	for v := lo; v < hi; v++ {
-		if ex.branch(ex.ts.Eq(t, ex.ts.Const(t.W, v))) {
-			return v
+	for {
+		if ex.inPrefix() {
+			d := ex.prefix[ex.pos]
+			switch d.K {
+			case decEq:
+				c := ts.Eq(t, ts.Const(t.W, d.V))
+				ex.W.solver.Assert(c)
+				ex.pc = append(ex.pc, c)
+				ex.decisions = append(ex.decisions, d)
+				ex.pos++
+				return d.V
+			case decNe:
+				c := ts.BNot(ts.Eq(t, ts.Const(t.W, d.V)))
+				ex.W.solver.Assert(c)
+				ex.pc = append(ex.pc, c)
+				ex.decisions = append(ex.decisions, d)
+				ex.pos++
+				continue
+			}
+			panic("decision prefix out of step (expected a concretisation)")
 		}
+		r, m := ex.W.solver.Check(nil, []*Term{t})
+		if r == Unknown {
+			ex.end(endInconclusive, "solver answered unknown/error: %s", ex.W.solver.lastErr)
+		}
+		if r == Unsat {
+			ex.end(endInfeasible, "no value left in concretize")
+		}
+		var v uint64
+		if t.Op == OVar {
+			v = m[t.Name]
+		} else {
+			v = m[t.ref()]
+		}
+		eq := ts.Eq(t, ts.Const(t.W, v))
+		if r2, _ := ex.check(ts.BNot(eq), false); r2 == Sat {
+			other := make([]Dec, len(ex.decisions)+1)
+			copy(other, ex.decisions)
+			other[len(ex.decisions)] = Dec{K: decNe, V: v}
+			ex.W.E.enqueue(other)
+		}
+		ex.W.solver.Assert(eq)
+		ex.pc = append(ex.pc, eq)
+		ex.decisions = append(ex.decisions, Dec{K: decEq, V: v})
+		ex.pos++
+		return v
 	}
-	// must be hi (the caller established the range); assert it so that the
-	// solver knows
-	ex.assume(ex.ts.Eq(t, ex.ts.Const(t.W, hi)))
-	return hi
 }
 
 // ---------------------------------------------------------------- exploration
 
-func (E *Explorer) enqueue(p []bool) {
+func (E *Explorer) enqueue(p []Dec) {
 	E.mu.Lock()
 	E.work = append(E.work, p)
 	E.mu.Unlock()
 	E.cond.Signal()
 }
 
-func (E *Explorer) next() ([]bool, bool) {
+func (E *Explorer) next() ([]Dec, bool) {
 	E.mu.Lock()
 	defer E.mu.Unlock()
 	for {
@@ -461,7 +592,7 @@ func (E *Explorer) Explore() *ExploreResult {
 	E.covers = make(map[string]int)
 	E.asserts = make(map[string]int)
 	E.stubs = make(map[string]int)
-	E.work = [][]bool{{}}
+	E.work = [][]Dec{{}}
 	var wg sync.WaitGroup
 	nw := E.Workers
 	if nw < 1 {
@@ -526,7 +657,7 @@ func (E *Explorer) Explore() *ExploreResult {
 	return res
 }
 
-func (w *Worker) runPath(prefix []bool) {
+func (w *Worker) runPath(prefix []Dec) {
 	E := w.E
 	ex := &Exec{
 		W: w, P: E.P, ts: w.ts, prefix: prefix,
@@ -539,6 +670,7 @@ func (w *Worker) runPath(prefix []bool) {
 		hostState: make(map[string]interface{}),
 		asserts:   make(map[string]int),
 		stubs:     make(map[string]int),
+		known:     make(map[*Term]bool),
 	}
 	if ex.maxSteps == 0 {
 		ex.maxSteps = 20_000_000
